@@ -82,6 +82,12 @@ fn parse_record(
         ok, k, jarr_u8(a), jarr_u8(b), valid, idx.min(1 << 30), fb, fs, jarr_u8(txt), jarr_u8(ntxt), nvalid, origin, kind, off.min(1 << 30)
     )
 }
+/// the error's Display text, next to the accessors it is built from
+fn with_msg(mut rec: String, msg: &str) -> String {
+    rec.pop();
+    rec.push_str(&format!(",\"msg\":\"{}\"}}", msg.replace('\\', "\\\\").replace('"', "\\\"")));
+    rec
+}
 macro_rules! parse_plain {
     ($T:ty, $t:expr) => {{
         let t: &[u8] = $t;
@@ -121,7 +127,7 @@ macro_rules! parse_plain {
                     Some(Err(_)) => "panic",
                     _ => "diff",
                 };
-                parse_record("err", 0, &[], &[], false, idx, fbs, fss, &[], &[], false, origin_str(&e), &kind_str(&e), off_of(&e))
+                with_msg(parse_record("err", 0, &[], &[], false, idx, fbs, fss, &[], &[], false, origin_str(&e), &kind_str(&e), off_of(&e)), &e.to_string())
             }
         }
     }};
@@ -172,7 +178,7 @@ macro_rules! parse_dual {
                     Some(Err(_)) => "panic",
                     _ => "diff",
                 };
-                parse_record("err", 0, &[], &[], false, idx, fbs, fss, &[], &[], false, origin_str(&e), &kind_str(&e), off_of(&e))
+                with_msg(parse_record("err", 0, &[], &[], false, idx, fbs, fss, &[], &[], false, origin_str(&e), &kind_str(&e), off_of(&e)), &e.to_string())
             }
         }
     }};
@@ -868,9 +874,12 @@ macro_rules! ord_event {
         let a: $T = <$T>::new_from_internals_near_raw($x.k, &$x.a, &$x.b);
         let b: $T = <$T>::new_from_internals_near_raw($y.k, &$y.a, &$y.b);
         $sh.emit(&format!(
-            "{{\"ev\":\"ord\",\"T\":\"{}\",\"A\":{},\"B\":{},\"eq\":{},\"ne\":{},\"cmp\":{},\"pcmp\":{},\"rcmp\":{},\"hasheq\":{},\"dhasheq\":{},\"cbs\":{}}}",
+            "{{\"ev\":\"ord\",\"T\":\"{}\",\"A\":{},\"B\":{},\"eq\":{},\"ne\":{},\"cmp\":{},\"pcmp\":{},\"rcmp\":{},\"hasheq\":{},\"dhasheq\":{},\"cbs\":{},\"rel\":\"{:?}\",\"near\":[{},{},{},{}],\"len1\":{},\"len2\":{},\"arr1\":{},\"arr2\":{}}}",
             $tn, $x.j_pub(), $y.j_pub(), a == b, a != b, ord_i(a.cmp(&b)), a.partial_cmp(&b).map(ord_i).unwrap_or(9), ord_i(b.cmp(&a)),
-            hash_stream(&a) == hash_stream(&b), default_hash(&a) == default_hash(&b), ord_i(a.cmp_by_block_size(&b))
+            hash_stream(&a) == hash_stream(&b), default_hash(&a) == default_hash(&b), ord_i(a.cmp_by_block_size(&b)),
+            <$T>::compare_block_sizes(&a, &b), <$T>::is_block_sizes_near(&a, &b), <$T>::is_block_sizes_near_eq(&a, &b),
+            <$T>::is_block_sizes_near_lt(&a, &b), <$T>::is_block_sizes_near_gt(&a, &b),
+            a.block_hash_1_len(), a.block_hash_2_len(), jarr_u8(a.block_hash_1_as_array()), jarr_u8(a.block_hash_2_as_array())
         ));
     }};
 }
